@@ -70,10 +70,14 @@ CHECKS.update({
                     "PushTruncateContainer contract, in both debug and release configurations; Vec's impl of the contract is proved from vstd. "
                     "Kani checks SmallVec's/Vec's impl of the contract and re-checks each operation on the real containers (bounded).",
             "note": "assumed: <[T]>::copy_within is memmove; SmallVec meets the container contract (bounded Kani check only); Deref trait methods are contract stubs whose bodies are verified re-homed (N12)"},
-    "C16": {"engine": "kani+native", "design_ref": "DESIGN.md 5 (C16), 10.3",
-            "technique": "Kani bounded inductive-per-operation harnesses against a reference ordered map, both item conventions; native bounded cross-check of whole operation sequences on more keys",
-            "text": _KB + "Every operation from EVERY rep-valid state within the bound (sorted keys, first/last live, inner deque invariant) against "
-                    "the list of live items; 'push of a non-greater key always panics' via an unreachable-marker harness.",
+    "C16": {"engine": "verus+kani+native", "design_ref": "DESIGN.md 5 (C16), 10.3, 10.4 (F6), 10.12",
+            "technique": "Verus contracts on the real generic SortedDeque against the reference ordered map `live` (unbounded, against trait contracts of comparator/marker and the SlidingDeque contracts); Kani bounded inductive-per-operation harnesses, both item conventions, incl. the assumed cleanup_front contract; native bounded cross-check of whole operation sequences on more keys",
+            "text": "Verus proves new, push_back_or_panic, clear, is_empty, first, last, pop_first, pop_last, find, find_index, remove, cleanup_back, "
+                    "check_rep for every size against the reference ordered map (the non-erased physical items in order) and the invariant wf, generic "
+                    "in container and comparator; cleanup_front, the comparator's order laws / method contracts, binary_search_by are assumed there. "
+                    + _KB + "Every operation from EVERY rep-valid state within the bound (sorted keys, first/last live, inner deque invariant) against "
+                    "the list of live items; 'push of a non-greater key always panics' via an unreachable-marker harness; the assumed cleanup_front contract "
+                    "on <= 7 / 10 items. One OPEN known finding (F6, whole-item ordering with tied key fields) is confined to its own harness.",
             "note": "BOUNDED: <= 4 physical items quick / 5 thorough; induction over operations is a meta-argument; defects needing >= 5 physical items are beyond the quick Kani bound and are reached by the thorough tier (5) and by Engine C, the native bounded cross-check (every subset of removals over <= 10 / 13 keys, all observations after every step; bounded, not proof)"},
     "C17": {"engine": "kani+verus", "design_ref": "DESIGN.md 5 (C17), 10.1",
             "technique": "Verus contract on ByteArena::read_n_impl against a ghost reader script (unbounded) + Verus contracts on Encoder/Decoder read_n / encode_read / decode_read; Kani bounded harness over all reader scripts as second engine with counterexample playback",
